@@ -454,6 +454,9 @@ func VerifHarness_C09_fragment_flood() {
 	verifReach("stopped")
 	verifAssert("C09.fragments.floodIsCutOff", err != nil && rt.pos <= maxHandshakeFragments+1)
 	verifAssert("C09.fragments.pendingBuffersBounded", len(r.pendingFragments) <= maxHandshakeFragments)
+	// C17: a bounded amount of pending fragment state under a hostile stream
+	verifAssert("C17.fragments.floodIsCutOff", err != nil && rt.pos <= maxHandshakeFragments+1)
+	verifAssert("C17.fragments.pendingStateBounded", len(r.pendingFragments) <= maxHandshakeFragments)
 }
 
 // C09 / C16 — one malformed datagram (arbitrary header: any version, lying length field, 13..20 bytes) on an
